@@ -1197,7 +1197,12 @@ def transform(fn, proceed, to_instrument=True, set_conformer=True):
     if to_instrument is True:
         to_instrument = [_GENERIC]
 
-    src = inspect.getsource(fn)
+    try:
+        src = inspect.getsource(fn)
+    except OSError as exc:
+        raise TypeError(
+            f"transform() needs the source code of {fn}, which cannot be found"
+        ) from exc
     # An indented definition (method, nested function) is parsed as the
     # body of a block. Dedenting the text would also change the lines of
     # multi-line string literals, or fail if one of them is not indented.
